@@ -523,8 +523,8 @@ CHECKS = {"transfer": check_transfer}
 
 def run(ctx):
     os.makedirs(os.path.join(VERIF, ".work"), exist_ok=True)
-    ctx.hyp("transfer", strategies(ctx), 110 if ctx.quick else 800)
-    ctx.hyp("transfer", strategies(ctx, "store_tail"), 60 if ctx.quick else 500)
+    ctx.hyp("transfer", strategies(ctx), 100 if ctx.quick else 800)
+    ctx.hyp("transfer", strategies(ctx, "store_tail"), 50 if ctx.quick else 300)
     # matrix payloads: seeded specs that pydicom round-trips under all four transfer syntaxes (so no combination is discarded)
     from engines import e3kit as K
 
